@@ -99,6 +99,7 @@ def codec_check(prop, tier, seed, codecs, checks, ops, numerics='0,1', rule=None
             shards = shards + pl.observe_tests(run, files, kexpr)
         cfg = ('SPECIFICATION Spec\nCONSTANT Checks = {%s}\nPOSTCONDITION TraceAccepted\nCHECK_DEADLOCK FALSE\n'
                % ', '.join('"%s"' % c for c in checks))
+        shards = pl.rebalance(run, shards)
         reports = pl.validate(run, 'Trace_Codec', cfg, shards, what='Trace_Codec %s' % ','.join(checks))
         idx = pl.load_trace_index(shards)
         pl.classify(run, reports, idx, prop)
